@@ -354,6 +354,25 @@ Definition endpoint_laws (e : endpoint) : bool :=
       end).
 Definition oracle_laws (f : facts) : bool := forallb endpoint_laws (f_servers f).
 
+(* ---------- is every dispatch policy of the applied object usable? ---------- *)
+(* ClusterInfo.MatchAttributes for a request that only policy p's rules match: (a policy matched, how many of the
+   picker's upstreams are endpoints the ClusterInfo knows — the lookup is by exact endpoint string —, the picker's
+   flow control is the system default) *)
+Fixpoint dedup (l : list Z) : list Z :=
+  match l with [] => [] | x :: r => if zmem x r then dedup r else x :: dedup r end.
+Definition policy_view (f : facts) (p : policy) : bool * Z * bool :=
+  if negb (p_rules p) then (false, 0, false)       (* no rule: ErrNoRouterRuleMatches *)
+  else
+    let ids := map ep_id (f_servers f) in
+    (true,
+     match p_subset p with
+     | [] => Z.of_nat (List.length (dedup ids))                                   (* AllEndpoints() *)
+     | sub => Z.of_nat (List.length (filter (fun u => zmem u ids) sub))
+     end,
+     (p_schema p =? 0) || negb (zmem (p_schema p) (map s_name (f_schemas f)))).   (* GetOrDefault *)
+Definition policy_views (f : facts) : option (list (bool * Z * bool)) :=
+  match apply_gateway f with Ok => Some (map (policy_view f) (f_policies f)) | _ => None end.
+
 (* ====================================================================================================
    EXTENSION 1 — updates: an existing ClusterInfo (created from object 1) is given object 2 of the same name
    through UpstreamClusterController.syncUpstreamCluster -> ClusterInfo.Sync.
